@@ -48,14 +48,20 @@ def run(replay=None):
     from concurrent.futures import ThreadPoolExecutor
 
     def one(chunk):
-        text = "".join(f"{'lastref' if len(c) == 4 else 'scenario'} {c[0]} {c[1]} {c[2]}\n" for c in chunk)
+        text = "".join((f"coldxyz {c[1]}\n" if c[0] == "coldxyz" else
+                        f"{'lastref' if len(c) == 4 else 'scenario'} {c[0]} {c[1]} {c[2]}\n") for c in chunk)
         try:
             p = subprocess.run([exe], input=text, stdout=subprocess.PIPE, stderr=subprocess.PIPE, text=True, errors="replace", timeout=1800, env=env)
             return chunk, p.stdout, p.stderr, p.returncode
         except subprocess.TimeoutExpired:
             return chunk, "", "TIMEOUT", -1
     chunks = [scen[i::8] for i in range(8)] + [[c + ("lastref",) for c in lastref[i::4]] for i in range(4)]
-    with ThreadPoolExecutor(max_workers=4) as ex:
+    # cold axis singletons: one fresh process per trial, its first command releases the threads that are the
+    # first users of Tree::X() / Y() / Z()
+    ncold = 24 if quick else 400
+    chunks += [[("coldxyz", rng.choice([2, 4, 8, 16]))] for _ in range(ncold)]
+    stats["coldxyz_processes"] = 0
+    with ThreadPoolExecutor(max_workers=6) as ex:
         results = list(ex.map(one, chunks))
     seen = set()
     for chunk, out, err, rc in results:
@@ -63,6 +69,14 @@ def run(replay=None):
             ck.violation("crash", f"thread scenarios crashed or hung (rc={rc})", {"scenarios": chunk, "stderr": err[-3000:]})
             continue
         for line in out.splitlines():
+            m = re.match(r"CX threads=(\d+) bad=(\d+)", line)
+            if m:
+                stats["coldxyz_processes"] += 1
+                if int(m.group(2)):
+                    ck.violation("coldxyz", f"{m.group(1)} threads that are the first users of Tree::X() / Y() / Z() in the process do not "
+                                 "all get the same axis nodes / correctly bound evaluators",
+                                 {"scenario": f"coldxyz {m.group(1)} (first command of a fresh process)", "detail": line})
+                continue
             m = re.match(r"LR seed=(\d+) threads=(\d+) trials=(\d+) freed=(\d+) bad=(\d+)", line)
             if m:
                 stats["lastref_scenarios"] += 1
